@@ -60,7 +60,7 @@ def _triples():
     def build(nrows, cols):
         well = st.tuples(st.integers(0, nrows - 1), st.sampled_from(cols)).map(lambda rc: f"{LETTERS[rc[0]]}{rc[1]:02d}")
         vol = st.one_of(st.integers(0, 2000), st.floats(0, 2000, allow_nan=False).map(lambda x: round(x, 3)))
-        return st.lists(st.tuples(well, well, vol).map(list), min_size=0, max_size=12)
+        return st.one_of(st.lists(st.tuples(well, well, vol).map(list), min_size=0, max_size=12), st.lists(st.tuples(well, well, vol).map(list), min_size=13, max_size=48))
 
     return st.tuples(st.sampled_from([1, 2, 3, 8, 26]), st.lists(st.integers(1, 99), min_size=1, max_size=5, unique=True)).flatmap(lambda a: build(*a))
 
@@ -159,7 +159,11 @@ def check_case(case) -> Obs:
         expect_vols = [float(v) for v in a_v]
     obs.cls("arguments-as:" + ["lists", "tuples", "arrays", "iterators", "float32-volumes"][form if triples else 0])
     triples = [(s_, d_, v_) for s_, d_, v_ in zip(srcs, dsts, expect_vols)]
-    groups = partition_by_column(a_s, a_d, a_v, mode)
+    # the mode name as a string built at run time (read from a file, a command line, ...), not the literal of the source code
+    mode_arg = "".join(list(mode))
+    groups = partition_by_column(a_s, a_d, a_v, mode_arg)
+    if len(triples) >= 17:
+        obs.cls("17-or-more-triples")
     side = 0 if mode == "source" else 1
     out = []
     prev_col = None
